@@ -89,25 +89,40 @@ class time_limit:
         return False
 
 
+# The child times the constructor itself (the clock starts after the imports, so a loaded machine cannot turn a slow
+# import into a "hang"); the parent's own timeout is only a backstop.
 WATCHDOG_SRC = r'''
-import json, sys
+import json, signal, sys
 sys.path.insert(0, sys.argv[1])
 from fsic.extensions import AliasMixin
 class Stub:
     def __init__(self, *a, **k):
         pass
+class WatchdogTimeout(BaseException):
+    pass
+def on_alarm(signum, frame):
+    raise WatchdogTimeout()
 aliases = dict(json.loads(sys.argv[2]))
 A = type('A', (AliasMixin, Stub), {'ALIASES': aliases})
+signal.signal(signal.SIGALRM, on_alarm)
+signal.setitimer(signal.ITIMER_REAL, float(sys.argv[3]))
 try:
     a = A()
+    signal.setitimer(signal.ITIMER_REAL, 0)
     print(json.dumps({'outcome': 'ok', 'aliases': [list(x) for x in a.aliases.items()]}))
+except WatchdogTimeout:
+    print(json.dumps({'outcome': 'hang'}))
 except BaseException as e:
+    signal.setitimer(signal.ITIMER_REAL, 0)
     print(json.dumps({'outcome': 'exc', 'cls': type(e).__name__, 'value_error': isinstance(e, ValueError)}))
 '''
+WATCHDOG_SECONDS = 3.0
+WATCHDOG_BACKSTOP = 60.0
 
 
 def watchdog_start(items):
-    return subprocess.Popen([sys.executable, '-c', WATCHDOG_SRC, framework.REPO, json.dumps(items)],
+    return subprocess.Popen([sys.executable, '-c', WATCHDOG_SRC, framework.REPO, json.dumps(items),
+                             str(WATCHDOG_SECONDS)],
                             stdout=subprocess.PIPE, stderr=subprocess.DEVNULL, text=True,
                             env=dict(os.environ, PYTHONDONTWRITEBYTECODE='1'))
 
@@ -336,13 +351,13 @@ def start_cyclic(ctx, rng):
     return [(items, watchdog_start(items)) for items in cyclic_cases(rng)]
 
 
-def finish_cyclic(ctx, rep, started, t_started, timeout=3.0):
-    deadline = t_started + timeout
+def finish_cyclic(ctx, rep, started, t_started):
+    deadline = t_started + WATCHDOG_BACKSTOP
     lines_ = []
     for items, proc in started:
         m = dict(items)
         case = {'part': 'cyclic', 'm': items}
-        res = watchdog_collect(proc, max(deadline, time.time() + 0.2))
+        res = watchdog_collect(proc, max(deadline, time.time() + 1.0))
         selfonly = only_self_cycles(m)
         rep.case(('F', tuple(map(tuple, items))), nontrivial=True,
                  sample={'part': 'F', 'ALIASES': m, 'outcome': res} if not _SAMPLED.get('F') else None)
@@ -1165,7 +1180,7 @@ def replay(ctx, rep, case):
         check_shorten(ctx, rep, [case['m']], case['names'], 'replay', budget)
     elif part == 'cyclic':
         proc = watchdog_start(case['m'])
-        res = watchdog_collect(proc, time.time() + 3.0)
+        res = watchdog_collect(proc, time.time() + WATCHDOG_BACKSTOP)
         print('  watchdog:', res)
         judge_cyclic(rep, case, dict(case['m']), res, only_self_cycles(dict(case['m'])))
     elif part == 'prefcheck':
